@@ -438,6 +438,18 @@ func (t *fnTrans) lockOp(m Val, acquire bool, key string, pos token.Pos) {
 	}
 	t.usedLocks[stName+"."+ls.Field] = true
 	self := p.Ref
+	// ghost lock mode of this mutex of this object: 0 not held by this function, 1 read-locked, 2 write-locked
+	// (spec builtins holds(x, "field") / holdsw(x, "field"))
+	lm := t.lockModeVar(stName, ls.Field)
+	if acquire {
+		mode := "2"
+		if strings.HasSuffix(key, ".RLock") {
+			mode = "1"
+		}
+		t.set(lm.Name, fmt.Sprintf("(store %s %s %s)", t.get(t.cur, lm.Name), self, mode))
+	} else {
+		t.set(lm.Name, fmt.Sprintf("(store %s %s 0)", t.get(t.cur, lm.Name), self))
+	}
 	st := p.Typ.Underlying().(*types.Struct)
 	lockPkg := t.eng.typesPkg(ls.Pkg)
 	guardedVars := func() []*StateVar {
@@ -583,6 +595,12 @@ func (t *fnTrans) lockOp(m Val, acquire bool, key string, pos token.Pos) {
 		t.assume(t.wf(nv, sv.Typ))
 		t.set(sv.Name, fmt.Sprintf("(store %s %s %s)", t.get(t.cur, sv.Name), self, nv))
 	}
+}
+
+// lockModeVar: per lock item, the mode in which the executing function holds that mutex of each object.
+// Not heap: callees are assumed to return with their lock operations balanced.
+func (t *fnTrans) lockModeVar(stName, field string) *StateVar {
+	return t.stateVar("LK_"+sanitize(stName)+"_"+sanitize(field), "(Array Int Int)", "lockmode", false, nil)
 }
 
 func pkgPathOf(ty types.Type) string {
